@@ -554,6 +554,16 @@ func (c *c14env) metaMap(cid []byte, oid []byte, network int64, vub int64) []byt
 	return data
 }
 
+// nonCanonical returns another byte string that deserializes to the same map: the entry count raised by one and the
+// "size" entry written once more at the end.
+func nonCanonical(meta []byte) []byte {
+	k, _ := stackitem.Serialize(stackitem.Make("size"))
+	v, _ := stackitem.Serialize(stackitem.Make(int64(123)))
+	res := append([]byte{}, meta...)
+	res[1]++ // one-byte entry count right after the type byte
+	return append(append(res, k...), v...)
+}
+
 func runC14(b *runner.Batch) {
 	n := []int{4, 1, 3, 7}[b.Index%4]
 	e, err := newEnv(b, n, 1, 1, false)
@@ -744,11 +754,28 @@ func runC14(b *runner.Batch) {
 			if nvec >= 2 && b.Rng.IntN(2) == 0 {
 				tgt = b.Rng.IntN(nvec)
 			}
-			sm := c.buildMatrix(cid, meta, members, class, tgt)
-			r := c.w.Invoke(nil, c.cn, "submitObjectPut", meta, sm.arg())
+			// what the members sign and what is submitted are the same bytes — except now and then: the same map has other
+			// encodings (an entry written twice: the later one replaces the earlier), and a signature of one byte string is
+			// no signature of another (seeded change C14-12: signatures checked against the re-encoded map)
+			signed, sent := meta, meta
+			switch b.Rng.IntN(6) {
+			case 0:
+				sent = nonCanonical(meta)
+				variantEnc := "another-encoding-of-the-signed-map-submitted"
+				b.Hit(variantEnc)
+			case 1:
+				signed, sent = nonCanonical(meta), nonCanonical(meta)
+				b.Hit("non-canonical-encoding-signed-and-submitted")
+			}
+			sm := c.buildMatrix(cid, signed, members, class, tgt)
+			r := c.w.Invoke(nil, c.cn, "submitObjectPut", sent, sm.arg())
 			b.Tx(1)
 			rs := []*world.TxResult{r}
-			sigOK := c.sigOracle(cid, meta, sm.sigs)
+			sigOK := c.sigOracle(cid, sent, sm.sigs)
+			if !bytes.Equal(signed, sent) {
+				// honest signatures of other bytes: the matrix is not an honest one for what was submitted
+				sm.honest = false
+			}
 			hasMeta := bytes.Equal(cid, metaCID)
 			cond := sigOK && hasMeta && variant == "valid"
 			nput := 0
